@@ -92,6 +92,107 @@ def h_web_reads(c0: bytes, c1: bytes, which: int, typed: bool) -> bool:
     return run(body_web_reads, c0, c1, which, typed)
 
 
+# ------------------------------------------------------------------ property changes stored in the repository
+CONFIGS = [None, b"[DEFAULT]\ntype = calendar\n\n", b"[DEFAULT]\ntype = calendar\ndisplayname = a\ncolor = #a\n\n",
+           b"[DEFAULT]\ntype = calendar\ncomment = a\n\n[calendar]\norder = 1\n\n"]
+PROPS = ["displayname", "description", "color", "comment", "source_url", "order"]
+VALUES = [None, "a", "b", "1"]
+
+
+def _props(store):
+    out = []
+    for p in PROPS:
+        try:
+            out.append(getattr(store, "get_" + p)())
+        except Exception as e:  # KeyError = unset for some getters
+            out.append(("unset", type(e).__name__))
+    try:
+        out.append(store.get_type())
+    except Exception as e:
+        out.append(("unset", type(e).__name__))
+    return out
+
+
+def body_prop_step(c0, ci, pi, vi):
+    """(the solver chooses the menu indices; the step itself then runs on concrete values outside the tracer - the
+    configparser and the metadata classes concretise everything anyway - so every combination is enumerated by
+    the solver and the verdict is CONFIRMED over the whole menu)"""
+    from xv.core import pick
+    c0, ci, pi, vi = (True if c0 else False), pick(ci, 4), pick(pi, 6), pick(vi, 4)
+    try:
+        from crosshair.tracers import NoTracing
+    except ImportError:
+        import contextlib
+        NoTracing = contextlib.nullcontext
+    with NoTracing():
+        return _prop_step(c0, ci, pi, vi)
+
+
+def _prop_step(c0, ci, pi, vi):
+    """One property set / clear on a collection whose metadata lives in the versioned .xandikos file (cfg 'file')
+    or in the repository's git config (cfg 'git'): a request that leaves every property and member as it was adds
+    NO commit (setting the value it already has, clearing what is not set, a refused set); one that changes a
+    property adds exactly one commit on top of the old head (file) / none at all (git config), and the members'
+    entries are carried over unchanged; tree store: working tree = index = HEAD afterwards."""
+    kind, cfg = ctx.PART
+    S = {"a.ics": b"xa"} if c0 else {}
+    Wm.reset()
+    path = _store.PATH
+    if cfg == "file":
+        mstore.install_state(kind, path, S, with_config=CONFIGS[ci])
+    else:
+        if ci == 0:
+            return (True, "pre-invalid")  # no [xandikos] section: the store uses the .xandikos back end (part 'file')
+        mstore.install_state(kind, path, S)
+        ctl = path if kind == "bare" else path + "/.git"
+        extra = [b"", b"[xandikos]\n\ttype = calendar\n", b"[xandikos]\n\ttype = calendar\n\tdisplayname = a\n\tcolor = #a\n",
+                 b"[xandikos]\n\ttype = calendar\n\tcomment = a\n"][ci]
+        Wm.CUR.files[ctl + "/config"] = Wm.CUR.files[ctl + "/config"] + extra
+    before = mstore.head_commits(path)
+    props0 = _props(mstore.open_store(kind, path))
+    store = mstore.open_store(kind, path)
+    prop, v = PROPS[pi], VALUES[vi]
+    if prop == "color" and v is not None:
+        v = "#" + v
+    try:
+        getattr(store, "set_" + prop)(v)
+        outcome = "done"
+    except Exception:
+        outcome = "refused"
+    after = mstore.head_commits(path)
+    fresh = mstore.open_store(kind, path)
+    props1 = _props(fresh)
+    cls = cfg + ":" + outcome + (":same" if props1 == props0 else ":changed")
+    ok = mstore.agrees(kind, mstore.observe(fresh), S) and not mstore.dangling(path)
+    if outcome == "refused" and props1 != props0:
+        return (False, cls)
+    if props1 == props0 or cfg == "git":
+        ok = ok and after == before
+    else:
+        ok = ok and len(after) == len(before) + 1 and after[1:] == before
+        if ok:
+            (cid, tree, parents) = after[0]
+            ok = ok and parents == ([before[0][0]] if before else [])
+            members = mstore.tree_members(path, tree)
+            ok = ok and {n: b for n, b in members.items() if n != ".xandikos"} == S and ".xandikos" in members
+    if kind == "tree":
+        st = Wm.CUR.repos[path]
+        head = mstore.tree_members(path, after[0][1]) if after else {}
+        wt = {n: Wm.CUR.files.get(path + "/" + n) for n in head}
+        idx = {n.decode("utf-8"): st.objects[e.sha].data for n, e in st.index.items() if e.sha in st.objects}
+        listed = set(x for x in Wm.CUR.listdir(path) if x != ".git")
+        ok = ok and wt == head and idx == head and listed == set(head) and st.index_lock is None
+    return (ok, cls)
+
+
+def h_prop_step(c0: bool, ci: int, pi: int, vi: int) -> bool:
+    """
+    pre: 0 <= ci <= 3 and 0 <= pi <= 5 and 0 <= vi <= 3
+    post: _
+    """
+    return run(body_prop_step, c0, ci, pi, vi)
+
+
 HARNESSES = [
     Harness("commit_step", h_commit_step, body_commit_step,
             classes=[("put:commit", ("bare", 0, 0)), ("put:nocommit", ("tree", 0, 0)), ("delete:commit", ("tree", 1, 0)),
@@ -100,6 +201,19 @@ HARNESSES = [
             budget={"quick": 60, "thorough": 420},
             describe="one commit iff the state changed; parent = old head; tree = live members; wt = index = HEAD",
             encodes=_store.STEP_ENCODES),
+    Harness("prop_step", h_prop_step, body_prop_step,
+            classes=[("file:done:changed", ("bare", "file")), ("file:done:same", ("tree", "file")),
+                     ("file:refused:same", ("tree", "file")), ("git:done:changed", ("bare", "git"))],
+            parts={"quick": [("bare", "file"), ("tree", "file"), ("bare", "git"), ("tree", "git")]},
+            budget={"quick": 75, "thorough": 240},
+            describe="one property set / clear (displayname, description, colour, comment, source-url, calendar-order; "
+                     "from four initial configurations incl. no .xandikos at all): a request that leaves every property "
+                     "as it was adds no commit; a change adds exactly one on top of the old head (.xandikos back end) / "
+                     "none (git-config back end); member entries carried over; wt = index = HEAD; part = (store, back end)",
+            encodes=["xandikos.store.config.FileBasedCollectionMetadata._save", "xandikos.store.config.FileBasedCollectionMetadata.set_displayname",
+                     "xandikos.store.config.FileBasedCollectionMetadata.set_order", "xandikos.store.git.GitStore.config",
+                     "xandikos.store.git.RepoCollectionMetadata._write_config", "xandikos.store.git.BareGitStore._import_one",
+                     "xandikos.store.git.TreeGitStore._import_one", "xandikos.store.git.GitStore.set_displayname"]),
     Harness("web_reads", h_web_reads, body_web_reads, classes=[("untyped:0", "tree"), ("typed:1", "bare")],
             parts={"quick": ["tree", "bare"]}, budget={"quick": 75, "thorough": 300},
             describe="PROPFIND / GET through the real web layer on a typed or untyped collection add no commit; the next "
